@@ -19,17 +19,17 @@ import (
 
 func init() {
 	simrt.Register(&simrt.Scenario{
-		Prop: "C18", Name: "conn-concurrent", Count: tiered(1200, 30000),
+		Prop: "C18", Name: "conn-concurrent", Count: tiered(1200, 240000),
 		Run: c18Conn, MaxOps: 2 << 20, Horizon: 3 * time.Hour,
 		Doc: "GBN pair with short keepalive intervals, packet deliveries aligned to ping/pong/resend tick instants, 2-4 application tasks per endpoint calling Send, Recv, SetSendTimeout, SetRecvTimeout and finally Close concurrently",
 	})
 	simrt.Register(&simrt.Scenario{
-		Prop: "C18", Name: "ticker-direct", Count: tiered(2000, 40000),
+		Prop: "C18", Name: "ticker-direct", Count: tiered(2000, 320000),
 		Run: c18Ticker, MaxOps: 1 << 20, Horizon: time.Hour,
 		Doc: "IntervalAwareForceTicker driven by three tasks exactly as the connection drives it: Reset from two tasks, Pause/IsActive/Resume, a tick consumer, Stop at the end",
 	})
 	simrt.Register(&simrt.Scenario{
-		Prop: "C18", Name: "timeoutmgr-direct", Count: tiered(800, 20000),
+		Prop: "C18", Name: "timeoutmgr-direct", Count: tiered(800, 160000),
 		Run: c20Concurrent, MaxOps: 1 << 20, Horizon: 500 * time.Hour,
 		Doc: "TimeoutManager driven by a send-loop task, a receive-loop task and a reader/setter task (same scenario as C20's concurrent one, here under the race detector)",
 	})
